@@ -43,12 +43,13 @@ func NormErr(err error) string {
 
 // bctx is the in-block construction context.
 type bctx struct {
-	c      *Chain
-	cs     consensus.State
-	h      uint64 // child height
-	median time.Time
-	forceTS *time.Time // explicit block timestamp (scripted blocks)
-	rng    *rand.Rand
+	c        *Chain
+	cs       consensus.State
+	h        uint64 // child height
+	median   time.Time
+	forceTS  *time.Time                                  // explicit block timestamp (scripted blocks)
+	formedV1 map[types.FileContractID]types.FileContract // v1 contracts formed earlier in this block
+	rng      *rand.Rand
 
 	usedSC    map[types.SiacoinOutputID]bool
 	usedSF    map[types.SiafundOutputID]bool
@@ -501,7 +502,7 @@ func (x *bctx) timestamp(mode string) time.Time {
 
 // AllKinds lists every transaction kind the generator knows.
 var AllKinds = []string{
-	"v1-pay", "v1-pay-partial", "v1-sf", "v1-sf-devaddr", "v1-form", "v1-revise", "v1-proof", "v1-revise+proof", "v1-foundation", "v1-arb",
+	"v1-pay", "v1-pay-partial", "v1-sf", "v1-sf-devaddr", "v1-form", "v1-revise", "v1-proof", "v1-revise+proof", "v1-form+revise", "v1-form+proof", "v1-foundation", "v1-arb",
 	"v2-pay", "v2-eph", "v2-sf", "v2-form", "v2-revise", "v2-renew", "v2-proof", "v2-expire", "v2-attest", "v2-foundation", "v2-arb", "v2-revise+resolve",
 }
 
